@@ -1,9 +1,24 @@
-"""Replay / bounded stand-in for C08: the shared server-protocol scenario bank (replay/server_bank.py)."""
+"""Replay / bounded stand-in for C08: URL record bank (replay/C19.py) for the url.py / from_line obligations,
+server scenario bank for the protocol obligations."""
 import sys
 
 sys.path.insert(0, "/verif")
 from replay.common import load, done  # noqa: E402
-from replay import server_bank  # noqa: E402
 
 p = load()
-done(**server_bank.bank(focus="C08"))
+ob = p.get("obligation", "")
+if "nauyaca.utils.url" in ob or "from_line" in ob:
+    import importlib.util
+    spec = importlib.util.spec_from_file_location("c19replay", "/verif/replay/C19.py")
+    m = importlib.util.module_from_spec(spec)
+    spec.loader.exec_module(m)
+    m.main(p)          # prints the verdict and exits
+from replay import server_bank  # noqa: E402
+r = server_bank.bank(focus="C08")
+if not r.get("confirmed") and ob == "__bounded__":
+    import importlib.util
+    spec = importlib.util.spec_from_file_location("c19replay", "/verif/replay/C19.py")
+    m = importlib.util.module_from_spec(spec)
+    spec.loader.exec_module(m)
+    m.main(p)
+done(**r)
